@@ -13,14 +13,18 @@
   All thin-line claims are proved for all end points (unbounded integers). Of the stroked-line
   sentence "for width 1 equals points()" (`thick_width1_eq_points`) and "contains the thin line"
   (`thick_contains_thin`: the centre line is the first parallel emitted, for every width) are
-  theorems; the others are:
+  theorems, and the model is total (`thick_points_total`: for every line and width it yields a
+  list; no loop bound or step budget is ever exhausted); the others are:
   -- [V] a stroked line yields no pixel twice: carried by correspondence + oracle only
-  -- [V] a stroked line stays within w/2 + 2.5 pixels of the ideal line: carried by correspondence + oracle only
+  -- [V] a stroked line stays within w/2 + 2.5 pixels of the ideal line, on every stroke where the oracle does not attribute a failure to the known finding of the next line (in the generated scope: every width up to 33, and axis-parallel and diagonal lines of every width up to 120): carried by correspondence + oracle only
+  -- [V] [N] "a stroked line stays within w/2 + 2.5 pixels of the ideal line" for ALL widths is FALSE of the model and of the real code (KNOWN FINDING, class `C17:thick-band:wide-stroke-overcount`; kernel-decided witness `thick_band_false`: line (0,0)-(2,1) width 37, pixel (9,-19); on the real code from width 34, corpus/C17.ops): `next_parallel` skips an `Extra` perpendicular step without adding its thickness to the accumulator (`next_adds_one_step`, `skipped_step_not_counted`), wide oblique strokes are up to ~11 % too wide; the oracle reports every occurrence under that class exactly when each pixel is inside the band after the uncounted displacement min(|dx|,|dy|)/L per skipped step of its side is discounted, any other band failure keeps the class `C17:thick-band`
   -- [V] a stroked line stays within one pixel of the segment's two ends: carried by correspondence + oracle only
-  -- [V] a stroked line is at least w - 1 pixels wide at its middle: carried by correspondence + oracle only
+  -- [V] a stroked line is at least w - 1 pixels wide at its middle (extent of the middle slab, and no hole: every lattice point within w/2 - 1 of the ideal line and at least 1 px inside both ends is a stroked pixel): carried by correspondence + oracle only
 -/
 import EG.Lemmas.LineProps
 import EG.Lemmas.ThickWidth1
+import EG.Lemmas.ThickAccumulator
+import EG.Lemmas.ThickTotal
 namespace EG.C17
 open EG EG.Line
 
@@ -106,7 +110,15 @@ theorem line_points_translate (l : Line) (d : Pt) :
 
 /-! ## Stroked lines (`Thick.thickPoints l w` = the points of
 `Line::new(s, e).into_styled(PrimitiveStyle::with_stroke(c, w)).pixels()` in emission order;
-`none` would mean that a loop bound of the model was exceeded, see EG/Model/ThickLine.lean) -/
+`none` would mean that a loop bound or the step budget of the model was exceeded, see
+EG/Model/ThickLine.lean; `thick_points_total`: that never happens) -/
+
+/-- The model of a stroked line is total: for every line and every stroke width it yields a pixel
+list. Neither the bound of the two inner loops (`next_parallel`, `ThickPoints::next`: at most two
+rounds each) nor the step budget is ever exhausted, so the model never answers "stuck" and never
+truncates; the theorems below that assume `thickPoints l w = some ps` are not vacuous for any input. -/
+theorem thick_points_total (l : Line) (w : Nat) : ∃ ps, Thick.thickPoints l w = some ps :=
+  Thick.thickPoints_total l w
 
 /-- For width 1 the stroked line equals `points()` (same points, same order). -/
 theorem thick_width1_eq_points (l : Line) : Thick.thickPoints l 1 = some (points l) :=
@@ -120,9 +132,103 @@ theorem thick_contains_thin (l : Line) (w : Nat) (hw : 1 ≤ w) (hw2 : w ≤ 214
   obtain ⟨more, hm⟩ := Thick.thickPoints_prefix l w hw hw2 ps h
   exact ⟨⟨more, hm⟩, fun p hp => by rw [hm]; exact List.mem_append_left _ hp⟩
 
+/-- Unconditional form: the pixel list exists and starts with `points()`. -/
+theorem thick_contains_thin_total (l : Line) (w : Nat) (hw : 1 ≤ w) (hw2 : w ≤ 2147483647) :
+    ∃ ps, Thick.thickPoints l w = some ps ∧ (∃ more, ps = points l ++ more) ∧
+      ∀ p ∈ points l, p ∈ ps := by
+  obtain ⟨ps, h⟩ := thick_points_total l w
+  exact ⟨ps, h, thick_contains_thin l w hw hw2 ps h⟩
+
+example : (1 : Nat) ≤ 85 ∧ (85 : Nat) ≤ 2147483647 := by decide
+
 /-- Stroke width 0 draws nothing. -/
 theorem thick_width0_empty (l : Line) : Thick.thickPoints l 0 = some [] :=
   Thick.thickPoints_width0 l
+
+/-! ### The band claim "within w/2 + 2.5 pixels of the ideal line" is false for wide strokes -/
+
+/-- `p` is within `w/2 + 2.5` pixels of the ideal line through `l` (exact form: with
+`cross = dx (p.y - y0) - dy (p.x - x0)` = length × signed distance, `4 cross² ≤ (w + 5)² (dx² + dy²)`). -/
+def InBand (l : Line) (w : Nat) (p : Pt) : Prop :=
+  4 * ((l.stop.x - l.start.x) * (p.y - l.start.y) - (l.stop.y - l.start.y) * (p.x - l.start.x)) ^ 2
+    ≤ ((w : Int) + 5) ^ 2 * ((l.stop.x - l.start.x) ^ 2 + (l.stop.y - l.start.y) ^ 2)
+
+instance (l : Line) (w : Nat) (p : Pt) : Decidable (InBand l w p) := by unfold InBand; infer_instance
+
+/-- The band claim of the property text, as a statement about the model (every width). -/
+def ThickBandAll : Prop :=
+  ∀ (l : Line) (w : Nat) (ps : List Pt), Thick.thickPoints l w = some ps → ∀ p ∈ ps, InBand l w p
+
+/-- **[N] The band claim is false for wide strokes.** Smallest instance found: the line (0,0)-(2,1)
+stroked with width 37 (129 pixels) contains the pixel (9,-19), whose distance from the ideal line
+is 47/√5 = 21.02 > 37/2 + 2.5 = 21. Kernel-decided; the real code yields the same pixels
+(corpus/C17.ops; on the real code the claim first fails at width 34, line (119,57)-(-119,-52)). -/
+theorem thick_band_false : ¬ ThickBandAll := by
+  intro h
+  have hm : (match Thick.thickPoints ⟨⟨0, 0⟩, ⟨2, 1⟩⟩ 37 with
+      | some ps => decide ((⟨9, -19⟩ : Pt) ∈ ps)
+      | none => false) = true := by decide +kernel
+  cases hps : Thick.thickPoints ⟨⟨0, 0⟩, ⟨2, 1⟩⟩ 37 with
+  | none => rw [hps] at hm; exact absurd hm (by decide)
+  | some ps =>
+    rw [hps] at hm
+    have := h ⟨⟨0, 0⟩, ⟨2, 1⟩⟩ 37 ps hps ⟨9, -19⟩ (of_decide_eq_true hm)
+    exact absurd this (by decide)
+
+/-- The mechanism, part 1: one call of `ParallelsIterator::next` that returns a parallel adds
+exactly ONE perpendicular step's thickness to the accumulator - `error_step.minor` of the
+perpendicular parameters for a `Normal` parallel, `error_step.major` for an `Extra` one - however
+many perpendicular steps `next_parallel` took to find it. -/
+theorem next_adds_one_step (it it' : Thick.ParallelsIterator) (b : Bresenham)
+    (ty : Thick.ParallelLineType) (h : it.next = some (some (b, ty), it')) :
+    it'.perpendicularParameters = it.perpendicularParameters ∧
+    it'.thicknessAccumulator = it.thicknessAccumulator +
+      (match ty with
+       | .normal => it.perpendicularParameters.errorStep.minor
+       | .extra => it.perpendicularParameters.errorStep.major) :=
+  Thick.next_adds_one_step it it' b ty h
+
+example : ((Thick.ParallelsIterator.new ⟨⟨0, 0⟩, ⟨2, 1⟩⟩ 37 .none).bind (·.next)).bind (·.1) =
+    some (⟨⟨0, 0⟩, 0⟩, .normal) := by decide
+
+/-- The mechanism, part 2: when the perpendicular walk of a side yields an `Extra` point and the
+parallel error does not wrap, `next_parallel` loops: the start point of that side has moved by the
+perpendicular `position_step.minor` (one pixel along the line's major axis, `min(|dx|,|dy|)/L`
+pixels away from the line) and the accumulator is unchanged - the step is never counted. -/
+theorem skipped_step_not_counted (fuel : Nat) (it : Thick.ParallelsIterator)
+    (hx : it.left.error > it.perpendicularParameters.errorThreshold)
+    (hflip : it.flip = false)
+    (hw : (it.parallelParameters.increaseError it.leftError).2 = false) :
+    Thick.ParallelsIterator.nextParallelFuel (fuel + 1) it .left =
+      Thick.ParallelsIterator.nextParallelFuel fuel
+        { it with
+          left := ⟨it.left.point + it.perpendicularParameters.positionStep.minor,
+                   it.left.error - it.perpendicularParameters.errorStep.minor⟩
+          leftError := (it.parallelParameters.increaseError it.leftError).1 } .left :=
+  Thick.nextParallelFuel_skip_left fuel it hx hflip hw
+
+/-- The state of the parallels iterator of the line (0,0)-(2,1), width 37, after three calls of
+`next` (centre line, first left, first right parallel): the next left perpendicular point is an
+`Extra` one (`left.error = 4 > 2`) and the parallel error does not wrap (`0 + 2 ≤ 2`). -/
+def skipState : Thick.ParallelsIterator :=
+  { parallelParameters := ⟨2, ⟨2, 4⟩, ⟨⟨1, 0⟩, ⟨0, 1⟩⟩⟩
+    perpendicularParameters := ⟨2, ⟨2, 4⟩, ⟨⟨0, -1⟩, ⟨1, 0⟩⟩⟩
+    thicknessAccumulator := 13, thicknessThreshold := 27380, flip := false
+    left := ⟨⟨0, -2⟩, 4⟩, leftError := 0, right := ⟨⟨-1, 1⟩, 2⟩, rightError := 2
+    nextSide := .left, strokeOffset := .none }
+
+/-- `skipState` is reached by the model, satisfies the hypotheses of `skipped_step_not_counted`,
+and its `next` call moves the left start point by TWO perpendicular steps, (0,-2) -> (1,-3) (from
+cross -4 to cross -7, i.e. 3/√5 px farther from the line), while the accumulator grows by one
+`Normal` step only, 13 -> 17 (= 2·2, i.e. 2/√5 px). -/
+example :
+    ((Thick.ParallelsIterator.new ⟨⟨0, 0⟩, ⟨2, 1⟩⟩ 37 .none).bind (fun it0 =>
+      (it0.next).bind (fun r1 => (r1.2.next).bind (fun r2 => (r2.2.next).map (·.2))))) = some skipState ∧
+    skipState.left.error > skipState.perpendicularParameters.errorThreshold ∧
+    skipState.flip = false ∧
+    (skipState.parallelParameters.increaseError skipState.leftError).2 = false ∧
+    (skipState.next).map (fun r => (r.1.map (·.2), r.2.left.point, r.2.thicknessAccumulator)) =
+      some (some .normal, ⟨1, -3⟩, 17) := by decide
 
 example : Thick.thickPoints ⟨⟨2, 2⟩, ⟨6, 4⟩⟩ 3 =
     some [⟨2, 2⟩, ⟨3, 2⟩, ⟨4, 3⟩, ⟨5, 3⟩, ⟨6, 4⟩, ⟨2, 1⟩, ⟨3, 1⟩, ⟨4, 2⟩, ⟨5, 2⟩, ⟨6, 3⟩,
